@@ -224,6 +224,8 @@ class C05(Prop):
             "prelude": gen.prelude(),
             # a second live connection in the same process (interleaved with this one, or blocked in a send)
             "companion": gen.companion(),
+            # connect() options that must not matter here
+            "copts_noise": gen.copts_noise(),
             "before": st.lists(st.sampled_from(["text", "binary", "fragtext"]), max_size=2),
         })
 
